@@ -264,6 +264,15 @@ def c10_violation(case, history=()):
         for t2 in (thr / 2, 0.0, float(np.nextafter(thr, -1.0))):
             if t2 <= thr and not c10_call(crit, tol, t2, old, old_n, nom, nom_n):
                 return f"accepted at {thr!r} but rejected at lower threshold {t2!r}"
+    if crit in ("tolerance-diameter", "tolerance-radius") and fresh and old_n > 1:
+        # the same law against the exact statistics (nothing of the implementation involved)
+        import oracles_hist
+        ex = oracles_hist.exact_rcompl if "radius" in crit else oracles_hist.exact_isim
+        e_new, e_old = float(ex([int(x) for x in new], new_n)), float(ex([int(x) for x in old], old_n))
+        slack = max((0.05 if tol is None else tol) * (math.exp(-1e-3 * old_n) - math.exp(-1.0)), 0.0)
+        if e_new < e_old - slack - 1e-9:
+            return (f"{crit} accepted although the exact merged statistic {e_new!r} < exact old statistic "
+                    f"{e_old!r} - slack {slack!r}")
     if crit in ("tolerance-diameter", "tolerance-radius"):
         base = sv >= thr
         if old_n == 1 and fresh != base:
